@@ -1,23 +1,11 @@
 /- Tie of the generated `margin_of` (see `Proofs/CScalarTies.lean` for the scheme). -/
 import Mahotas.Generated.CScalar
 import Mahotas.Model.C04
+import Mahotas.Proofs.CScalarTies.Loops
 namespace Mahotas
 open Generated.C
 
 /-! ### `_morph.cpp`: `margin_of` (a loop over the axes) -/
-
-/-- a `for (d = 0; d != n; ++d)` loop that reads two arrays at `[d]` only is a fold over the zipped lists -/
-theorem foldl_range_getD2 {σ : Type} (f : σ → Int → Int → σ) :
-    ∀ (xs ys : List Int) (s : σ), ys.length = xs.length →
-      (List.range xs.length).foldl (fun s (k : Nat) => f s (xs.getD k 0) (ys.getD k 0)) s
-        = (List.zip xs ys).foldl (fun s xy => f s xy.1 xy.2) s
-  | [], ys, s, _ => by simp
-  | x :: xs, [], s, h => by simp at h
-  | x :: xs, y :: ys, s, h => by
-      have ih := foldl_range_getD2 f xs ys (f s x y) (by simpa using h)
-      simp only [List.length_cons, List.range_succ_eq_map, List.foldl_cons, List.foldl_map, List.zip_cons_cons,
-        List.getD_cons_zero, List.getD_cons_succ]
-      exact ih
 
 theorem marginOf_zip : ∀ (ds : List Nat) (ps : List Int) (m : Int), ps.length = ds.length → m ≤ C04.idxMax →
     (List.zip (ds.map Int.ofNat) ps).foldl (fun m xy => min (min m xy.2) (xy.1 - xy.2 - 1)) m = min m (C04.marginOf ds ps)
